@@ -41,13 +41,20 @@ ROffs      == { 0 - 300, 0 - 130, 0 - 126, 0 - 125, 0 - 61, 0 - 59, 0 - 8, 0 - 7
 \* exhaustive export with the real constants: boundary alphabet.  The start instant B0 makes
 \* CurrentTime + FutureSlots a multiple of 60, the tightest alignment of the ring: a 60-second row
 \* with spread index 59 clamped to CurrentTime+3 lands QLen-1 slots ahead of a SendTime lagging by 5
-B0 == R0 + 57
+B0 == R0 + 60 - FutureSlots
 BMetrics   == { M(1, 1, 1, 0, 0), M(3, 60, 1, 2, R0 + 60), M(5, 1, 2, 1, B0 + 1) }
 BTicks     == { 1, 7, 130 }
 BOffs      == { 0 - 7, 0, 4 }
 BMetrics2  == { M(1, 1, 1, 0, 0), M(3, 60, 1, 2, R0 + 60), M(2, 5, 2, 0, 0), M(5, 1, 2, 1, B0 + 1) }
 BTicks2    == { 0, 1, 2, 7, 130 }
 BOffs2     == { 0 - 126, 0 - 7, 0 - 1, 0, 3, 4 }
+
+(* directed family: SendTime lagging around the discard threshold (QLen - FutureSlots - Spread = 5, so lags 5..9)
+   with the channel occupied or not, and a 60-second row stamped at / beyond CurrentTime + FutureSlots (the next
+   minute boundary, see B0) whose spread index is one of the last ones - the rows that reach the far end of the ring *)
+LMetrics   == { M(3, 60, 1, 2, R0 + 60), M(1, 1, 1, 0, 0) }
+LOffs      == { 3, 4 }
+LastSpread(r) == { x \in {0, r - 3, r - 2, r - 1} : x >= 0 }
 
 (* exhaustive export with the real constants, shaped so that every behaviour is worth replaying:
    start state (lag of SendTime, channel occupied), a clock step, a flush or an event, an event,
@@ -60,7 +67,7 @@ BehNext ==
        \/ n = 3 /\ EventChoice
        \/ n = 4 /\ ((\E s \in Shards : Flush(s)) \/ FlushAll \/ (\E s \in Shards : Consume(s)) \/ Stop)
        \/ n = 5 /\ FlushAllData
-ExportBeh == IF Len(hist') >= 6 \/ (Len(hist') = 5 /\ hist'[5].a # "Stop") THEN PrintT(<<"BEH", ToJson(hist')>>) ELSE TRUE
+ExportBeh == IF Len(hist') >= 6 \/ (Len(hist') = 5 /\ hist'[5].a # "Stop") THEN PrintBeh ELSE TRUE
 
 (* simulation: TLC evaluates every disjunct of the next-state relation and picks uniformly among the
    successors, so the action class is drawn first (weights below), then one random representative of
